@@ -8,7 +8,7 @@ from .. import gen_pattern as gp, oracle_fgg as of, cmp
 ID = 'C07'
 RULE = ("einsum signatures with <=4 indices and <=3 operands (arity 0-3, an index may repeat inside one operand, output a "
         "duplicate-free sub-list in random order, empty operand list), one index type per index (atoms/products/sums, numel "
-        "<=12, zero-size atoms), operands = typed patterns of those types (shared axes, sums, stride-0 broadcast views, any "
+        "<=12, zero-size atoms), operands = typed patterns of those types (also one object passed twice, or with a dimension-reversed view of itself; shared axes, sums, stride-0 broadcast views, any "
         "default) x {Real,Log,Viterbi,Bool} x requires_grad on/off (under no_grad) x {einsum, mv/mm, "
         "log_viterbi_einsum_forward}; oracle = brute-force numpy loop over all index values with 0*inf=0 on the dense twins "
         "(twins from an independent interpreter of the axis language); Viterbi variant: pointers plugged back must attain the "
@@ -17,7 +17,7 @@ ASSUMPTIONS = ["operands of one equation are generated from the same index types
                "operands that require grad are evaluated under torch.no_grad(), as SumProduct.forward does",
                "tolerance |a-b| <= rtol*(1+|b|), rtol 1e-9 (f64) / 1e-4 (f32); inf and zero exact",
                "library warnings 'index type mismatch' on generated operands are reported as harness errors of the generator, not violations"]
-ESSENTIAL_LABELS = ['summed-out', 'shared-index', 'structured', 'repeat-in-operand', 'zero-size', 'bcast-view', 'empty-operands', 'requires-grad']
+ESSENTIAL_LABELS = ['aliased-operands', 'summed-out', 'shared-index', 'structured', 'repeat-in-operand', 'zero-size', 'bcast-view', 'empty-operands', 'requires-grad']
 KINDS = ['real', 'log', 'viterbi', 'bool']
 
 VALUES = {'real': (0.0, 0.0, 0.5, 1.0, 2.0, 3.0, of.INF), 'log': (-of.INF, -of.INF, -1.5, 0.0, 0.7, 2.0, of.INF),
@@ -36,14 +36,33 @@ def cases(draw, tier):
     if mode == 'viterbi-ptr': kind = 'viterbi'
     dtype = 'bool' if kind == 'bool' else draw(st.sampled_from(['float64', 'float64', 'float32']))
     nidx = draw(st.integers(1, 4))
+    pk = {}; force_alias = False
     names = ['i', 'j', 'k', 'l'][:nidx]
     tys = {n: draw(gp.types(max_numel=12 if tier == 'quick' else 16, depth=2, allow_zero=True)) for n in names}
+    if draw(st.integers(0, 3)) == 0:
+        tys = {n: tys[names[0]] for n in names}      # all indices of one type: operands can be each other's views
     if mode == 'mv':
         names = ['i', 'j']; tys = {n: tys.get(n) or draw(gp.types(max_numel=12)) for n in names}
         sig = [['i', 'j'], ['j']]; output = ['i']
     elif mode == 'mm':
         names = ['i', 'j', 'k']; tys = {n: tys.get(n) or draw(gp.types(max_numel=12)) for n in names}
         sig = [['i', 'j'], ['j', 'k']]; output = ['i', 'k']
+    elif draw(st.integers(0, 4)) == 0:
+        # structured scenarios: every index has one structured (product / sum) type and no operand is dense, so that
+        # (a) aliased operands share axes that occur only nested inside product/sum axes, (b) two operands select
+        # different summands of a shared index (the product is zero) while another shared index still unifies
+        scen = draw(st.sampled_from(['alias', 'disjoint-sum']))
+        if scen == 'alias':
+            T = draw(gp.types(max_numel=8, depth=2).filter(lambda t: t[0] != 'atom'))
+        else:
+            T = ['sum', [['atom', draw(st.integers(1, 3))] for _ in range(draw(st.integers(2, 3)))]]
+        names = ['i', 'j', 'k']; tys = {n: T for n in names}
+        sig = draw(st.sampled_from([[['i', 'j'], ['j', 'k']], [['i', 'j'], ['j', 'i']], [['i', 'j'], ['j', 'k'], ['k']],
+                                    [['i', 'j'], ['j', 'k'], ['k', 'i']], [['i', 'j'], ['i', 'j']]]))
+        used = list(dict.fromkeys(n for s_ in sig for n in s_))
+        output = [n for n in used if draw(st.integers(0, 2)) == 0]
+        pk = dict(p_dense=0.0, p_reuse=0.3, p_bcast=0.05)
+        force_alias = scen == 'alias'
     else:
         nops = draw(st.sampled_from([0, 1, 2, 2, 2, 3, 3]))
         sig = [[draw(st.sampled_from(names)) for _ in range(draw(st.sampled_from([0, 1, 1, 2, 2, 2, 3])))] for _ in range(nops)]
@@ -54,7 +73,7 @@ def cases(draw, tier):
     zero = ZERO[kind]
     for s in sig:
         if dtype == 'bool':
-            spec = draw(gp.tensor_specs([tys[n] for n in s], dtype='bool'))
+            spec = draw(gp.tensor_specs([tys[n] for n in s], dtype='bool', **pk))
         else:
             defaults = (zero, zero, zero) + ((1.0, 7.0, 0.0) if kind == 'real' else (0.0, -2.0, 1.0))
             vals = VALUES[kind]
@@ -63,8 +82,19 @@ def cases(draw, tier):
                 # (its (+inf)+(-inf) is NaN inside torch_semiring_einsum; the statement's 0*inf clause is about einsum)
                 vals = tuple(v for v in vals if v != of.INF)
                 defaults = tuple(v for v in defaults if v != of.INF)
-            spec = draw(gp.tensor_specs([tys[n] for n in s], values=vals, defaults=defaults, dtype=dtype))
+            spec = draw(gp.tensor_specs([tys[n] for n in s], values=vals, defaults=defaults, dtype=dtype, **pk))
         ops.append({'indices': s, 'spec': spec})
+    # aliasing: an operand may be the very same object as an earlier one (a rule that uses one factor twice) or a
+    # dimension-reversed view of it (shares its PhysicalAxis objects in other roles)
+    for j in range(1, len(ops)):
+        tj = [tys[n] for n in ops[j]['indices']]
+        for i in range(j):
+            if 'alias' in ops[i]: continue
+            ti = [tys[n] for n in ops[i]['indices']]
+            if tj == ti and (draw(st.integers(0, 2)) == 0 or (force_alias and draw(st.booleans()))):
+                ops[j] = {'indices': ops[j]['indices'], 'spec': ops[i]['spec'], 'alias': [i, 'same']}; break
+            if len(tj) >= 2 and tj == ti[::-1] and (draw(st.integers(0, 2)) == 0 or force_alias):
+                ops[j] = {'indices': ops[j]['indices'], 'spec': ops[i]['spec'], 'alias': [i, 'reversed']}; break
     rg = dtype != 'bool' and draw(st.integers(0, 3)) == 0
     return {'kind': kind, 'mode': mode, 'dtype': dtype, 'types': tys, 'operands': ops, 'output': output, 'requires_grad': rg}
 
@@ -129,13 +159,23 @@ def check(case, ctx):
     sizes = {n: sizes_all[n] for n in used}
     output = case['output']
     dense = [gp.dense_of(o['spec']) for o in case['operands']]
+    for j, o in enumerate(case['operands']):
+        if o.get('alias') and o['alias'][1] == 'reversed':
+            dense[j] = np.transpose(dense[o['alias'][0]])
     for o, d in zip(case['operands'], dense):
         assert d.shape == tuple(sizes[n] for n in o['indices']), 'harness: generated operand has wrong shape'
     ref, full = brute(kind, sizes, operands, dense, output)
     dtype = gp.torch_dtype(dtn)
     sr = gen_fgg.make_semiring(kind, dtype if dtn != 'bool' else None) if kind != 'bool' else gen_fgg.make_semiring('bool', None)
     try:
-        pts = [gp.build_pt(o['spec']) for o in case['operands']]
+        pts = []
+        for o in case['operands']:
+            if o.get('alias'):
+                src = pts[o['alias'][0]]
+                pts.append(src if o['alias'][1] == 'same' else src.permute(tuple(reversed(range(len(o['indices']))))))
+                ctx.label('aliased-operands')
+            else:
+                pts.append(gp.build_pt(o['spec']))
     except Exception as e:
         ctx.violation('construct-failed', f'{type(e).__name__}: {e}'); return
     for pt, d in zip(pts, dense):
